@@ -286,7 +286,7 @@ fn emit_all(w: &mut NdWriter, id: &str, text: &str, want: &[AEv], stats: &mut St
 fn has_merge(evs: &[AEv]) -> bool {
     evs.iter().any(|e| e.k == "S" && e.v == "<<" && e.q == "p" && e.t.is_empty())
 }
-fn has_repeated_key(n: &Node) -> bool {
+pub fn has_repeated_key(n: &Node) -> bool {
     match n {
         Node::Map { entries, .. } => {
             let mut seen = std::collections::HashSet::new();
